@@ -62,6 +62,7 @@ class Raises:
     exc: str                       # exception class name
     when: Optional[str] = None     # condition (over pre-state) under which it MAY be raised; None = any time
     ensures: List[str] = field(default_factory=list)  # exceptional postcondition
+    labels: List[Optional[str]] = field(default_factory=list)   # optional names of those clauses (obligation labels)
 
 
 @dataclass
@@ -112,11 +113,15 @@ class Contract:
         return self
 
     def mod(self, *locs):
-        self.modifies += list(locs)
+        # "self.x" = a field of the interpreter; "Cls.f" = the mutable field f of every Cls object (heap location (Cls, f))
+        self.modifies += [l if (not isinstance(l, str) or l.startswith("self.")) else tuple(l.split(".", 1)) for l in locs]
         return self
 
     def may_raise(self, exc, when=None, ensures=()):
-        self.raises.append(Raises(exc, when, list(ensures)))
+        # a clause may be given as (label, text)
+        texts = [e[1] if isinstance(e, tuple) else e for e in ensures]
+        labels = [e[0] if isinstance(e, tuple) else None for e in ensures]
+        self.raises.append(Raises(exc, when, texts, labels))
         return self
 
     def loop(self, ordinal, inv=(), decreases=None, hints=(), body=None):
@@ -164,6 +169,7 @@ class World:
         self.axioms: List[Axiom] = []
         self.contracts: Dict[str, Contract] = {}      # by target
         self.by_method: Dict[str, Contract] = {}      # by bare function name
+        self.by_method_all: Dict[str, list] = {}      # bare name -> [(qualname, contract)]
         self.self_fields: Dict[str, Field] = {}       # mutable fields of `self`
         self.self_sort: RefSort = Ref("Interp")
         self.exc_parents: Dict[str, Optional[str]] = {}
@@ -229,8 +235,18 @@ class World:
             self.contracts[target] = c
             for t in [target] + list(also):
                 self.by_method.setdefault(t.split(":")[1].split(".")[-1], c)
+                self.by_method_all.setdefault(t.split(":")[1].split(".")[-1], []).append((t.split(":")[1], c))
             return c
         return deco
+
+    def method_contract(self, name: str, cls: Optional[str] = None):
+        """Contract for `self.<name>(...)` called from a body of class `cls`: the contract attached to that
+        class's own method when there is one (engine twins may carry different contracts), else the first registered."""
+        if cls:
+            for q, c in self.by_method_all.get(name, []):
+                if q == f"{cls}.{name}":
+                    return c
+        return self.by_method.get(name)
 
     def assume(self, text: str):
         self.assumptions.append(text)
